@@ -111,7 +111,13 @@ def run_case(case):
             if prim in ('mech_array', 'mech_list', 'mech_dict', 'mech_dict_base'):
                 M = mechload.load('mechanism').Mechanism(1.0, 0, case['bounded'])
                 if prim == 'mech_array':
-                    ret = M.exponential_mechanism(qs.copy(), eps, sens); keys = list(range(n))
+                    arg = qs.copy()
+                    if case['np_seed'] % 2:
+                        M.exponential_mechanism(arg, eps, sens)
+                        del tap.events[:]
+                    ret = M.exponential_mechanism(arg, eps, sens); keys = list(range(n))
+                    if not np.array_equal(arg, qs):
+                        return out.fail('mutated:mech_array', "exponential_mechanism modified the caller's score vector")
                 elif prim == 'mech_list':
                     ret = M.exponential_mechanism([float(x) for x in qs], eps, sens); keys = list(range(n))
                 else:
@@ -182,7 +188,14 @@ def run_case(case):
                 if prim == 'adagrid' and case['inf_eps']:
                     e = np.inf; sens = 1.0      # eps=inf is only ever combined with sensitivity 1 by its callers
                 coef = 1.0 if case['monotonic'] else 0.5
-                ret = mod.exponential_mechanism(qs.copy(), e, sens, monotonic=case['monotonic']); keys = list(range(n))
+                arg = qs.copy()
+                if case['np_seed'] % 2:
+                    # selection loops draw again and again from one score vector
+                    mod.exponential_mechanism(arg, e, sens, monotonic=case['monotonic'])
+                    del tap.events[:]
+                ret = mod.exponential_mechanism(arg, e, sens, monotonic=case['monotonic']); keys = list(range(n))
+                if not np.array_equal(arg, qs):
+                    return out.fail('mutated:%s' % prim, "exponential_mechanism modified the caller's score vector")
             elif prim == 'mwem_worst':
                 mod = mechload.load('mwem+pgm')
                 rng = np.random.Generator(np.random.PCG64(case['seed'] + 11))
